@@ -495,9 +495,15 @@ where
         if let Some(ref mut data) = self.writing {
             while data.has_remaining() {
                 let stream = Pin::new(&mut self.stream);
-                let written = ready!(stream.poll_write(cx, data.chunk()))
-                    .map_err(convert_write_error_to_stream_error)?;
-                data.advance(written);
+                match ready!(stream.poll_write(cx, data.chunk())) {
+                    Ok(written) => data.advance(written),
+                    Err(err) => {
+                        // The write has failed and will not be resumed: forget the buffer, so that
+                        // a later send_data is not refused because of it
+                        self.writing = None;
+                        return Poll::Ready(Err(convert_write_error_to_stream_error(err)));
+                    }
+                }
             }
         }
         // all data is written
